@@ -8,9 +8,11 @@ def _l1(profiles, nq, nt, **kw):
 
 
 _TREES = "random message trees (depth<=12, fan-out<=6, 1-4 top-level messages, all three carrier types, 5% carriers that fail to unpack) x heights {0,1,2,3,10,1e6}"
-_HIST = ("directed second-order scenarios (P1-P18, S1-S3 of DESIGN.md) + random histories (6-36 blocks, 1-5 genesis validators, pool of 8 identities, "
+_HIST = ("48 directed second-order scenarios (P1-P18, S1-S30 of DESIGN.md) + random histories (6-36 blocks, 1-5 genesis validators, pool of 8 identities, "
          "profiles %s: admin workflow around the 30%% boundary, hazards (repeat targets, jailed/removed/unknown targets, unjail, parameter changes, "
-         "max_validators 2-4), wrong senders, malformed inputs, noise) on the real SimApp with CometBFT's ValidatorSet tracked; ")
+         "max_validators 2-4, removed validators that miss their last votes, apply again and are re-admitted), downtime patterns, double-sign evidence "
+         "(both kinds of misbehaviour, stale and fresh, on active / jailed / removed validators) in half of them, wrong senders, malformed inputs, noise) "
+         "on the real SimApp with CometBFT's ValidatorSet tracked; ")
 
 PROPS = {
     "C01": {"tie": ["Tie/Census.v"], "l1": _l1(["authority", "mixed"], 120, 2400, twin=True),
